@@ -1807,6 +1807,19 @@ class Resolver:
                 if variant is not None:
                     if self.level >= 1 and variant in PAYLOAD_VARIANTS and name == '0':
                         e = self._payload(e, variant)
+                    elif e[0] == 'agg' and isinstance(e[1], tuple) and e[1][0] == 'adt' and e[1][2] == variant and name in e[1][3] and list(e[1][3]).index(name) < len(e[2]):
+                        # a field of a variant of some crate enum, read back from the aggregate that built it
+                        e = e[2][list(e[1][3]).index(name)]
+                    elif e[0] == 'phi' and len(e) > 2 and all(a[0] == 'agg' and isinstance(a[1], tuple) and a[1][0] == 'adt' for a in e[2]) and \
+                            any(a[1][2] == variant for a in e[2]):
+                        # .. or from a value that is one of several such aggregates: only those of the tested variant carry the field
+                        vals = []
+                        for a in e[2]:
+                            if a[1][2] == variant and name in a[1][3] and list(a[1][3]).index(name) < len(a[2]):
+                                v_ = a[2][list(a[1][3]).index(name)]
+                                if v_ not in vals:
+                                    vals.append(v_)
+                        e = vals[0] if len(vals) == 1 else (('phi', e[1], tuple(vals)) if vals else ('vfield', e, variant, name))
                     else:
                         e = ('vfield', e, variant, name)
                     variant = None
